@@ -23,6 +23,15 @@ pub fn adv_scripts() -> Vec<Script> {
     let peers: Vec<String> = vec!["A".into(), "M".into(), "B".into()];
     let mk = |n: &str, ast: I| Script { family: "ADV".into(), name: format!("ADV/{n}"), ast, peers: peers.clone() };
     vec![
+        // the attacker's value is produced in a sibling par branch of the calls that use it: a peer that does not hold
+        // it (the attacker can take it back) meets stored results for calls whose arguments it cannot resolve
+        mk(
+            "arg-from-sibling-par",
+            par(
+                call("M", "f1", vec![], sc("x")),
+                seq(seq(call("A", "g1", vec![var("x"), Arg::Str("allow".into())], sc("u")), call("A", "g1", vec![var("x"), Arg::Str("deny".into())], sc("v"))), seq(call("M", "relay", vec![var("u"), var("v")], sc("r")), call("B", "f2", vec![var("u"), var("v")], sc("w")))),
+            ),
+        ),
         mk("chain", seq(call("M", "f1", vec![], sc("x")), seq(call("B", "f2", vec![var("x")], sc("y")), seq(call("M", "f3", vec![var("y")], sc("w")), call("A", "f4", vec![var("x"), var("y"), var("w")], sc("z")))))),
         mk(
             "stream-fold-canon",
@@ -597,6 +606,24 @@ fn c14_judge(n: &Dec, h: &Dec, prev: &Dec, attacker_id: &str, victim_id: &str, r
         let genuine = count_h.get(&(owner.clone(), cid.clone())).cloned().unwrap_or(0).max(count_p.get(&(owner.clone(), cid.clone())).cloned().unwrap_or(0));
         if count_n[&(owner.clone(), cid.clone())] > genuine {
             return Some(format!("position {pos}: result {cid} attributed to honest peer {owner} occurs {} times in the accepted data, {} times in the honest outcome", count_n[&(owner.clone(), cid.clone())], genuine));
+        }
+        // the value shown under the id must be the one the owner signed: the honest outcome (or the victim's previous
+        // data) stores it under the same id; an altered value under an unchanged id is an altered result
+        if let Some(c) = cid.strip_prefix("call:") {
+            if let (Some(a), Some(b)) = (n.srv(c), h.srv(c).or_else(|| prev.srv(c))) {
+                if a.value != b.value || a.tetraplet != b.tetraplet || a.arg_hash != b.arg_hash {
+                    return Some(format!("position {pos}: result {cid} attributed to honest peer {owner} is stored with value {:?} tetraplet {:?}; the owner signed value {:?} tetraplet {:?}", a.value, a.tetraplet, b.value, b.tetraplet));
+                }
+            }
+        }
+        if let Some(c) = cid.strip_prefix("canon:") {
+            if let (Some(a), Some(b)) = (n.canon(c), h.canon(c).or_else(|| prev.canon(c))) {
+                let va: Vec<_> = a.elems.iter().map(|e| (e.value.clone(), e.tetraplet.clone())).collect();
+                let vb: Vec<_> = b.elems.iter().map(|e| (e.value.clone(), e.tetraplet.clone())).collect();
+                if va != vb {
+                    return Some(format!("position {pos}: canon result {cid} attributed to honest peer {owner} is stored with elements {va:?}; the owner signed {vb:?}"));
+                }
+            }
         }
         if same_shape {
             match rh.get(pos) {
